@@ -137,10 +137,27 @@ def extra(report, env):
         cases += 1
     if sizes2[-1] > 0 and len(fails) < 5:
         fails.append({'formula': 'IFERROR(SUM(1/0),0) (repeated)', 'detail': 'traceback entries retained after successful evaluations: %r' % (sizes2,)})
+    interference(report, env, 'C02')
     bounded(report, 'C02.histories', 'seeded histories of <= 6 parses (22 formulas incl. failing ones and raising callbacks) before a probe vs a fresh '
             'parser; debug on/off for 22 formulas; 5 host lists x 26 consumers deep-compared; traceback growth over 3x1000 failing parses', cases, fails)
 
 
+def interference(report, env, prop):
+    """ outcome of every evaluation = its outcome in a process that evaluated nothing else, whatever was evaluated before / meanwhile on
+        this or another parser (fresh-process oracle: pyvc.e2e_fresh) """
+    import random as _r
+    from pyvc import e2e
+    from props.common import bounded as _b
+    cases, fails = e2e.check_interference(_r.Random(env['seed'] + 7), env['tier'], env['scratch'])
+    _b(report, prop + '.interference', 'every ordered pair of %d formulas (second after first, on another parser) and seeded interleavings of 2..7 '
+       'evaluations over 3 parsers, 30%% of them with a nested evaluation in the middle, each outcome compared with the outcome of the same formula in a '
+       'freshly started process' % len(e2e.INTERFERENCE_FORMULAS), cases, fails)
+
+
 def replay(rp):
+    if rp.get('interference'):
+        from pyvc import e2e
+        r = e2e.replay_formula(rp)
+        return 0 if isinstance(r, dict) else 1
     print(rp.get('formula'), rp.get('detail'))
     return 1
